@@ -17,6 +17,17 @@ _REG = None
 GROUPS = ["types", "ops", "collections", "verif.q", "verif.u"]
 
 
+_STD = None
+
+
+def fresh_extensions():
+    """Start of a run: the two test extensions are rebuilt (a session may re-publish / re-home their definitions)."""
+    global _REG
+    _REG = None
+    _PARTIAL.clear()
+    return extensions()
+
+
 def extensions():
     """name -> Extension, grouped for registry snapshots."""
     global _REG
@@ -319,6 +330,34 @@ def hugr_leg(ctx):
                     ctx.violate("model-invariant", f"to_model-raised:{type(e).__name__}", {"error": str(e)[:200]})
             if ctx.violations:
                 return
+        if "verif.q" in groups and ch.coin(1, 3, "registry-churn"):
+            # the registry's owner re-publishes a definition under the same name and moves the superseded object into
+            # another extension: a HUGR resolved earlier keeps saying what it said (it shares nothing mutable with them)
+            from semver import Version
+            from hugr import ext as hext
+            q = extensions()["verif.q"][0]
+            used = sorted({t_[1][2] for t_ in after.values() if t_[1][0] == "ExtOp" and t_[1][1] == "verif.q"})
+            if used:
+                name = ch.pick(used, "republish")
+                old = q.operations[name]
+                pf = old.signature.poly_func
+                q.add_op_def(hext.OpDef(name, hext.OpDefSig(pf.body if pf is not None else None, binary=pf is None), "re-published"))
+                legacy = hext.Extension("verif.legacy", Version(0, 0, 1))
+                legacy.add_op_def(old)
+                ctx.ev("owner", "re-publish + move superseded definition", name)
+                ctx.probe("definition_rehomed_after_resolution")
+                ctx.steps += 1
+                ctx.checked("wire-invariant")
+                doc = strip_descr(json.loads(h.to_json()))
+                if doc != doc0:
+                    from ..engines.c_persist import _doc_diff_cls, _first_diff
+                    ctx.violate("wire-invariant", "changed-by-later-edits-of-the-registry:" + _doc_diff_cls(doc0, doc), {"diff": _first_diff(doc0, doc)})
+                    return
+                h.resolve_extensions(registry(groups))
+                doc = strip_descr(json.loads(h.to_json()))
+                if doc != doc0:
+                    ctx.violate("idempotent", "resolving-again-after-registry-edits-changed-the-document", {})
+                    return
 
 
 def _node(h, idx):
@@ -407,6 +446,37 @@ def type_leg(ctx):
         model0 = ty.to_model()
     except Exception:  # noqa: BLE001
         model0 = None
+    if ch.coin(1, 12, "resolve-fails-first"):
+        # fault, then workload: the first attempt to resolve runs out of stack (a deep expression, a shallow limit) and the
+        # caller retries with more room; the retry must resolve everything the registry knows
+        import sys
+        t = T()
+        tower = t.int_t(5)
+        for _ in range(22):
+            tower = t.tys.Tuple(t.List(tower))
+        stored_t = tower._to_serial_root().model_dump_json()
+        deep = SType.model_validate_json(stored_t).deserialize()
+        reg_all = registry(list(GROUPS))
+        lim = sys.getrecursionlimit()
+        try:
+            sys.setrecursionlimit(len(__import__("inspect").stack()) + 60)
+            try:
+                deep.resolve(reg_all)
+                ctx.probe("deep_resolve_succeeded_at_low_limit")
+            except RecursionError:
+                ctx.fault("resolve_ran_out_of_stack")
+        finally:
+            sys.setrecursionlimit(max(lim, 5000))
+        ctx.steps += 1
+        res = deep.resolve(reg_all)
+        tr = []
+        walk_type(res, tr, "t")
+        ctx.checked("exactly-when")
+        bad = [x for x in tr if not x[3]]
+        if bad:
+            ctx.violate("exactly-when", "type-not-resolved:after-a-failed-resolve", {"unresolved": len(bad), "of": len(tr)})
+        sys.setrecursionlimit(lim)
+        return
     known = []
     order = list(GROUPS)
     ctx.profile = {"leg": "type", "opaque_nodes": len(tree0)}
@@ -466,7 +536,7 @@ def type_leg(ctx):
 
 
 def run(ctx):
-    extensions()
+    fresh_extensions()
     if ctx.ch.weighted([3, 2], "leg") == 0:
         hugr_leg(ctx)
     else:
